@@ -1746,9 +1746,15 @@ _BUILTINS = {
 
 
 def is_abstract(f: FuncInfo):
+  if isinstance(f.node, ast.Lambda):
+    return False
   body = [st for st in f.body if not (isinstance(st, ast.Expr) and isinstance(st.value, ast.Constant))]
   if len(body) == 1 and isinstance(body[0], ast.Raise):
     return 'NotImplementedError' in unparse(body[0])
+  if not body or (len(body) == 1 and isinstance(body[0], ast.Pass)):
+    # `...` / docstring-only bodies of Protocol members
+    return any(isinstance(st, ast.Expr) and isinstance(st.value, ast.Constant) and st.value.value is Ellipsis for st in f.body) or f.cls is not None and any(
+        'Protocol' in unparse(b) for b in f.cls.bases_ast)
   return False
 
 
